@@ -563,8 +563,10 @@ RTRLIB_EXPORT int rtr_mgr_add_group(struct rtr_mgr_config *config, const struct 
 		goto err;
 
 	new_group_node = lrtr_malloc(sizeof(struct rtr_mgr_group_node));
-	if (!new_group_node)
+	if (!new_group_node) {
+		err_code = RTR_ERROR;
 		goto err;
+	}
 
 	new_group_node->group = new_group;
 	tommy_list_insert_tail(&config->groups->list, &new_group_node->node, new_group_node);
